@@ -15,6 +15,7 @@ import (
 	"pgregory.net/rapid"
 
 	"verifharness/evid"
+	"verifharness/memconn"
 	"verifharness/sim"
 )
 
@@ -82,6 +83,12 @@ func c20Run(c c20Case) Outcome {
 func c20RunInBubble(c c20Case) (out Outcome) {
 	cl := c.Layout.build()
 	addrs := c.Layout.addrs()
+	for _, ph := range c.Phases {
+		if ph.Fault == "busygiveup" {
+			// small pipes: a server that stops reading blocks the connection's writer at once
+			cl.ConnOptions = func(addr string, k int) memconn.Options { return memconn.Options{Cap: 16} }
+		}
+	}
 	readTimeout := 2 * time.Second
 	for _, ph := range c.Phases {
 		if ph.MetaSlowMS > 0 {
@@ -102,6 +109,7 @@ func c20RunInBubble(c c20Case) (out Outcome) {
 	busyRegions := false
 	concurrentFirst := false
 	reuseAfterFailure := false
+	busyGiveUp := false
 	usedRegions := map[string]bool{}
 	for pi, ph := range c.Phases {
 		if ph.CacheRegions != "" {
@@ -245,6 +253,55 @@ func c20RunInBubble(c c20Case) (out Outcome) {
 				time.Sleep(50 * time.Millisecond)
 				break
 			}
+		case "busygiveup":
+			// the server stops reading for a moment: its connection's batching goroutine blocks in Write, the send
+			// queue fills up, and a batch with a deadline gives up waiting for room in it. Nothing is wrong with the
+			// connection: once the server reads again everything is served over it
+			var onAddr []*sim.Region
+			for _, r := range cl.TableRegions(c.Layout.Table) {
+				if r.Addr == addr && usedRegions[string(r.Name)] {
+					onAddr = append(onAddr, r)
+				}
+			}
+			// (only on a settled client: a region still being established would send its probe - an unbatched write -
+			// into the stalled connection and queue on the write lock behind the blocked writer, which freezes the
+			// bubble's clock)
+			settled := !anyFault && !layoutChanged
+			for _, r := range gohbase.VerifCachedRegions(client) {
+				if r.IsUnavailable() || r.Client() == nil {
+					settled = false
+				}
+			}
+			if c.Queue < 2 || len(onAddr) == 0 || cl.MetaAddr == addr || !settled {
+				break
+			}
+			cl.SetServer(addr, func(s *sim.ServerState) { s.Stall = true })
+			var fillers sync.WaitGroup
+			for i := 0; i < 3; i++ {
+				mk := fmt.Sprintf("mkfill%d_%d", pi, i)
+				fillers.Add(1)
+				go func() {
+					defer fillers.Done()
+					p, _ := hrpc.NewPut(context.Background(), []byte(c.Layout.Table), onAddr[0].Start, map[string]map[string][]byte{"f": {mk: make([]byte, 200)}})
+					client.Put(p)
+				}()
+				time.Sleep(time.Duration(c.FlushMS+1) * time.Millisecond)
+				synctest.Wait()
+			}
+			gctx, gcancel := context.WithTimeout(context.Background(), 100*time.Millisecond)
+			gp, _ := hrpc.NewPut(gctx, []byte(c.Layout.Table), onAddr[len(onAddr)-1].Start, map[string]map[string][]byte{"f": {fmt.Sprintf("mkgiveup%d", pi): []byte("v")}})
+			gres, gok := client.SendBatch(gctx, []hrpc.Call{gp})
+			gcancel()
+			cl.SetServer(addr, func(s *sim.ServerState) { s.Stall = false })
+			fillers.Wait()
+			synctest.Wait()
+			if gok || gres[0].Error == nil {
+				// (the queue was not full after all: nothing was given up)
+				break
+			}
+			out.Labels = append(out.Labels, "batch_gave_up_on_a_busy_connection")
+			busyGiveUp = true
+			_ = busyGiveUp
 		case "fatal":
 			cl.SetServer(addr, func(s *sim.ServerState) { s.Fatal = sim.RSStopped })
 			anyFault = true
@@ -347,7 +404,7 @@ func c20Gen(t *rapid.T) c20Case {
 		if rapid.IntRange(0, 4).Draw(t, "cache") == 0 {
 			ph.CacheRegions = c.Layout.Table
 		}
-		ph.Fault = rapid.SampledFrom([]string{"", "", "", "reset", "silent", "fatal", "multistop", "actionstop"}).Draw(t, "fault")
+		ph.Fault = rapid.SampledFrom([]string{"", "", "", "reset", "silent", "fatal", "multistop", "actionstop", "busygiveup"}).Draw(t, "fault")
 		ph.FaultServer = rapid.IntRange(0, 3).Draw(t, "faultserver")
 		if rapid.IntRange(0, 5).Draw(t, "metaslow") == 0 {
 			ph.MetaSlowMS = rapid.SampledFrom([]int{30500, 31000, 45000, 70000}).Draw(t, "metaslowms")
